@@ -71,13 +71,56 @@ PROPS = {
 NOT_APPLICABLE = {
     'C18': 'Debyer is a Cython/OpenMP extension that is not built and cannot be built here (np.int removed from the pinned numpy); no running code to bind a contract to, and the property is about thread schedules and reduction order, on which contract-based deductive verification is silent',
     # provisional while their contracts are being built (moved to checks as they land):
-    'C01': 'contracts for PRISM.cost/solve under construction in this tree; not yet claimed',
     'C02': 'numerical agreement with Wertheim-Thiele / discretisation error under refinement is not expressible as a contract on these functions; dilute-limit lemmas under construction; not yet claimed',
     'C04': 'relational lemmas over the PRISM.cost contract under construction; not yet claimed',
-    'C05': 'contracts for calculate/* under construction; not yet claimed',
-    'C06': 'contracts for calculate/* under construction; not yet claimed',
-    'C08': 'prefactor identities under construction; not yet claimed',
-    'C16': 'contracts for System/PRISM.__init__ under construction; not yet claimed',
+    'C17': 'quantity-algebra contracts under construction; not yet claimed',
+}
+
+A_INV = 'np.linalg.inv is modelled by its defining equations inv(A) A = A inv(A) = I: results hold for the invertible matrices on which numpy returns (singular I - Omega C raises LinAlgError in numpy; not covered)'
+A_ROOT = 'A5 (R1/R2): scipy.optimize.root evaluates the cost function finitely often, the last time at the returned x, and returns fun = cost(x); convergence and accuracy of the solver are NOT verified'
+A_DST = A_EXT % 'scipy.fftpack.dst types 2/3 are functions of their input array (matched call by call), are the defining sine sums, linear, and mutually inverse up to 2N'
+
+PROPS.update({
+    'C01': {
+        'level': 'proof',
+        'technique': TECH + '; PRISM equation as an abstract-ring lemma over the postcondition of PRISM.cost (z3, hint chain)',
+        'explanation': 'PRISM.__init__, PRISM.cost and PRISM.solve are refined against specs written from the PRISM equation and the closure definitions (ranks 1-3, mixes of the shipped closures/potentials/omegas, every x and grid): after cost(x) the stored arrays are c_ab = closure_ab(r, x/r), C = to_fourier(c), rho_pair o H = (I - Omega C)^-1 Omega C Omega, y = r(to_real(H - C) - x/r), independent of any earlier evaluation; solve leaves the arrays of the last evaluation (= the returned root, assumed R2) with totalCorr transformed once. Lemmas: that postcondition is the matrix PRISM equation H = Omega C (Omega + H) for every rank; the closure discrepancy of the stored functions equals F(G) - F(G + y/r) (residual times a difference quotient, no absolute tolerance).',
+        'assumptions': [A_FP, A_ASSERT, A_NUMPY, A_RANK, A_INV, A_ROOT, A_DST, A_TRANS],
+    },
+    'C05': {
+        'level': 'proof',
+        'technique': TECH + '; rational-function identities by sympy with z3-discharged side conditions; cross-identities as abstract-ring lemmas',
+        'explanation': 'The seven calculate.* functions are refined (ranks 1-3, all 2^3 storage-space combinations of the three arrays as symbolic flags, both values of every flag) against specs written from the definitions: g=h+1, pmf=-kT ln g, S=rho_pair h+Omega [/rho_site], B2=-h(k->0)/2 or the quadratic through the 3 lowest k at 0, spinodal = extrapolated det(I - Omega C) of each pair\'s 2x2 block with the object\'s own omega (8-term curve == determinant), solvation = to_real(-kT C S C | -kT ln(1+C S C)) with S from structure_factor\'s contract; chi: property clauses on the code\'s post-state (equal volumes: (rho/2)(C_aa+C_bb-2C_ab); general: one k-independent factor times C_aa/R + R C_bb - 2 C_ab; both orientations share the value). Lemmas: S = (I-Omega C)^-1 Omega on self-consistent objects; symmetry of H, S and C S C.',
+        'assumptions': [A_FP, A_ASSERT, A_NUMPY, A_RANK, A_DST, A_EXT % 'np.polyfit(x,y,2) through 3 distinct points is the interpolating quadratic (evaluated at 0 by the Lagrange formula)', A_TRANS, 'pre-state arrays are symmetric in the two type labels (what MatrixArray.__setitem__ maintains); domain length >= 3'],
+    },
+    'C06': {
+        'level': 'proof',
+        'technique': TECH + '; abstract-state invariant: every calculate.* only flips the representation of a stored array (frame comparison of all pre-existing objects), round trip by lemma',
+        'explanation': 'Every calculate.* function is verified, for every storage-space combination, to (i) return normally, (ii) leave every pre-existing object and array equal to what its definition-level spec leaves: the three stored arrays are either untouched or transformed exactly once through Domain.MatrixArray_to_* with the flag flipped, nothing else on the PRISM object or its System is written, (iii) return a value that is a function of the real-space content only. With the round-trip lemma (C07) the abstract content (h, c, Omega) is invariant under every operation of the alphabet, so by induction any finite history returns what a fresh object returns. solve: state after solve = state of the last cost evaluation (function of x, sys, omega only) with totalCorr in real space.',
+        'assumptions': [A_FP, A_ASSERT, A_NUMPY, A_RANK, A_DST, A_ROOT, 'that a re-solve started from the object\'s own x returns the same root is a statement about scipy\'s solver: assumed, bounded stand-in only'],
+    },
+    'C08': {
+        'level': 'proof',
+        'technique': TECH + '; prefactor / phase identities by z3 over the contract formulas and the DST definitions',
+        'explanation': 'Domain.to_fourier/to_real and build_grid are refined against F_j = dst2(2 pi r dr f)_j / k_j and f_i = dst3(k dk/(4 pi^2) F)_i / r_i on a well-formed grid. Lemma: substituting the DST-II/III definitions these are (4 pi/k_j) sum_n r_n f_n sin(k_j (r_n - dr/2)) dr and 1/(2 pi^2 r_i) sum_n k_n F_n sin(k_n (r_i - dr/2)) dk (+ boundary term): the individual prefactors 4 pi and 1/(2 pi^2) and the phase dk = pi/(dr N) are pinned separately; k->0 limit of sin(kx)/k. The O(dr) error bound under grid refinement is numerical analysis of a Riemann sum: not decidable by contracts, bounded stand-in only.',
+        'assumptions': [A_FP, A_NUMPY, A_DST, 'discretisation error <= const*dr and its decrease under refinement: NOT proved (bounded stand-in)'],
+    },
+    'C16': {
+        'level': 'proof',
+        'technique': TECH + '; frame / ownership by comparison of every pre-existing object and of the alias structure of fresh ones',
+        'explanation': 'System.__init__/check/createPRISM/solve and PRISM.__init__ are refined against specs: check raises ValueError iff any table entry or the domain is missing and modifies nothing; createPRISM/solve call check first and let its exception escape; PRISM.__init__ wires a private deep copy (per pair: contact distance (d_a+d_b)/2, potential on the domain r grid divided by the *current* kT, explicit sigma kept; omega on the k grid times site density, Fourier flag; array shapes) and leaves the caller\'s System and everything reachable from it untouched and unshared (type-label lists excepted). Pre-states are real System objects built by the constructor with an earlier kT and then edited (sweeps).',
+        'assumptions': [A_FP, A_ASSERT, A_NUMPY, A_RANK, A_TYPES, A_EXT % 'copy.deepcopy returns a structurally equal object graph disjoint from the original', A_ROOT, 'equality of a swept System\'s *solved* result with a fresh System\'s presupposes a deterministic solver: follows from wiring equality + determinism of cost; bounded stand-in only'],
+    },
+})
+
+for _p in ('C02', 'C04', 'C17'):
+    PROPS.setdefault(_p, {'level': 'proof', 'technique': TECH, 'explanation': 'under construction', 'assumptions': [A_FP, A_ASSERT, A_NUMPY], 'registered': False})
+
+NOT_APPLICABLE = {
+    'C18': 'Debyer is a Cython/OpenMP extension that is not built and cannot be built here (np.int removed from the pinned numpy); no running code to bind a contract to, and the property is about thread schedules and reduction order, on which contract-based deductive verification is silent',
+    # provisional while their contracts are being built (moved to checks as they land):
+    'C02': 'numerical agreement with Wertheim-Thiele / discretisation error under refinement is not expressible as a contract on these functions; dilute-limit lemmas under construction; not yet claimed',
+    'C04': 'relational lemmas over the PRISM.cost contract under construction; not yet claimed',
     'C17': 'quantity-algebra contracts under construction; not yet claimed',
 }
 
